@@ -49,14 +49,15 @@ func (ml MultiLineString) Distance(p Point) float64 {
 
 // Clip returns the part of the receiver that falls within the given polygon.
 func (ml MultiLineString) Clip(p Polygonal) Linear {
-	pTemp := make(Polygon, len(ml))
-	for i, l := range ml {
-		pTemp[i] = Path(l)
-	}
-	pTemp = pTemp.op(p, polyclip.CLIPLINE)
-	o := make(MultiLineString, len(pTemp))
-	for i, pp := range pTemp {
-		o[i] = LineString(pp[0 : len(pp)-1])
+	// Every member is clipped on its own. Handed to the clipper together,
+	// members that meet at their end points are chained by it, and a chain
+	// that closes on itself inside p is not returned at all.
+	o := make(MultiLineString, 0, len(ml))
+	for _, l := range ml {
+		pTemp := Polygon{Path(l)}.op(p, polyclip.CLIPLINE)
+		for _, pp := range pTemp {
+			o = append(o, LineString(pp[0:len(pp)-1]))
+		}
 	}
 	return o
 }
